@@ -165,6 +165,25 @@ def _scan_accepted(ctx, F, b, tm, push, cand, sol, flag, false_blocks, gsw):
     rows = [r for r in iteration_table(sb, lp[0], stop_at_exit=True) if r.kind != "diverge"]
     if not rows or not all(r.conds for r in rows):
         return "unreadable scan loop"
+    full_rows = None
+    if via is None and sb.raw.get("inlined"):
+        # the scan was written out in place from a helper: what its verdict leads to is read on the paths that continue
+        # past the loop (the literal Ok(true)/Ok(false) the copy ends with decides the caller's `if`)
+        try:
+            full_rows = [r for r in iteration_table(sb, lp[0], max_paths=20000) if r.kind != "diverge"]
+        except TooManyPaths:
+            full_rows = None
+
+    def cleared_after(r):
+        """the acceptance flag is false on every feasible continuation of this exit row"""
+        if full_rows is None:
+            return None
+        k = len(r.blocks) - 1
+        conts = [x for x in full_rows if x.blocks[:k] == r.blocks[:k] and len(x.blocks) > k and x.blocks[k] == r.blocks[k]]
+        if not conts:
+            return None
+        # (the gate is decided on each such path by the flag's value there: a path on which it is false does not reach the push)
+        return all(push.bb not in x.blocks for x in conts)
     d0 = C(rows[0].conds[0][0])
     if not (d0[0] == "discr" and d0[1][0] == "call" and re.search(r"::next$", d0[1][1]) and all(C(r.conds[0][0]) == d0 for r in rows)):
         return "the scan is not driven by an iterator over the accepted routes"
@@ -225,7 +244,7 @@ def _scan_accepted(ctx, F, b, tm, push, cand, sol, flag, false_blocks, gsw):
         if some is False:
             # exhausted: nothing rejected here
             if via is None:
-                if r.env.get(flag) is not None and clean(r.env[flag]) == ("const", "bool", False) or gsw not in b.reachable(start=r.blocks[-1], removed_blocks=list(false_blocks)):
+                if r.env.get(flag) is not None and clean(r.env[flag]) == ("const", "bool", False) or (gsw not in b.reachable(start=r.blocks[-1], removed_blocks=list(false_blocks)) and cleared_after(r) is not False) or cleared_after(r) is True:
                     return "the candidate is rejected after all accepted routes passed both tests"
             else:
                 vals = region_value(sb, edge)
@@ -237,7 +256,7 @@ def _scan_accepted(ctx, F, b, tm, push, cand, sol, flag, false_blocks, gsw):
         n_rej += 1
         if via is None:
             # from where the scan is left, the gate of the push is reached only through a block that clears the flag
-            cleared = (r.env.get(flag) is not None and clean(r.env[flag]) == ("const", "bool", False)) or gsw not in b.reachable(start=r.blocks[-1], removed_blocks=list(false_blocks))
+            cleared = (r.env.get(flag) is not None and clean(r.env[flag]) == ("const", "bool", False)) or gsw not in b.reachable(start=r.blocks[-1], removed_blocks=list(false_blocks)) or cleared_after(r) is True
             if not cleared:
                 return "a matching accepted route does not clear the acceptance flag"
         else:
